@@ -19,9 +19,12 @@ ResultFails(tb, e) ==
   LET cs == Dispatch(tb, e.addr, e.tags)
       must == Must(cs)  may == May(cs)
       k1 == KeysOf(e.noloc)  k2 == KeysOf(e.loc) IN
-  {k \in {"oob", "noloc_missed", "noloc_foreign", "noloc_twice", "loc_missed", "loc_foreign", "loc_twice", "strategy_differs",
+  {k \in {"oob", "oob_location_buffer", "exact_location_buffer_differs", "noloc_missed", "noloc_foreign", "noloc_twice", "loc_missed", "loc_foreign", "loc_twice", "strategy_differs",
           "loc_string", "loc_port", "matches", "object"} :
    ~ CASE k = "oob" -> e.asan = 0
+       \* a location buffer of exactly the address's size behaves like a large one; one that is too short is never written behind
+       [] k = "oob_location_buffer" -> ("asan_tight" \in DOMAIN e) => (e.asan_tight = 0 /\ e.asan_short = 0)
+       [] k = "exact_location_buffer_differs" -> ("tight" \in DOMAIN e) => (Range(KeysOf(e.tight)) = Range(k2) /\ e.matches_tight = e.matches)
        [] k = "noloc_missed"  -> must \subseteq Range(k1)
        [] k = "noloc_foreign" -> Range(k1) \subseteq may
        [] k = "noloc_twice"   -> NoDups(k1)
